@@ -64,11 +64,11 @@ void WorldQ::c10_on_send_event(const Event &e) {
     std::string f = e.path.substr(ctl.size());
     bool missing = e.ret < 0 && e.err == 2; if (e.ret < 0 && !missing) { if (f == "locals" || f == "virtualdomains" || !rc_valid) rc_failed = true; return; }
     std::string data = missing ? "" : (e.ino ? e.ino->data : "");
-    if (f == "me") { rc_me = data; while (!rc_me.empty() && (rc_me.back() == '\n' || rc_me.back() == ' ')) rc_me.pop_back(); }
+    if (f == "me") { rc_me = data; rc_me = rc_me.substr(0, rc_me.find('\n')); while (!rc_me.empty() && (rc_me.back() == ' ' || rc_me.back() == '\t')) rc_me.pop_back(); }
     else if (f == "locals") { rc_seen_locals = true; RouteConf::set_lines(rc_cand.locals, missing ? rc_me + "\n" : data); }
     else if (f == "virtualdomains") { rc_seen_vdoms = true; rc_cand.set_vdoms(data); }
     else if (f == "percenthack" && !rc_valid) RouteConf::set_lines(rc_cand.percenthack, data);
-    else if (f == "envnoathost" && !rc_valid) { std::string v = missing ? rc_me : data.substr(0, data.find('\n')); rc_cand.envnoathost = v; }
+    else if (f == "envnoathost" && !rc_valid) { std::string v = missing ? rc_me : data.substr(0, data.find('\n')); while (!v.empty() && (v.back() == ' ' || v.back() == '\t')) v.pop_back();   /* qmail-control(5): trailing spaces and tabs are ignored */ rc_cand.envnoathost = v; }
   }
   if (e.call == C_READ && e.ret < 0 && e.path.compare(0, ctl.size(), ctl) == 0) rc_failed = true;
 }
